@@ -1366,3 +1366,58 @@ TWINS += [
         (M, _LOOP1, _HELPER_CALL), (M, "        def _match(\n", _HELPER.replace("rules: list[Rule]", "rules: t.Iterable[Rule]").replace("for rule in rules:", "for rule in iter(rules):")),
         (M, _FALLBACK_LOOP, _fallback_site(_NOT_STRICT_GEN))]},
 ]
+
+# ---- round 4: rule flags inherited from the map (R3.9); sample maps / paths answered by symbolic execution (R3.10):
+# leading slashes of the request path, the converters' options at their boundaries
+_BIND_STRICT = "        if self.strict_slashes is None:\n            self.strict_slashes = map.strict_slashes\n"
+_BIND_MERGE = "        if self.merge_slashes is None:\n            self.merge_slashes = map.merge_slashes\n"
+_BIND_FLAGS = _BIND_STRICT + _BIND_MERGE
+_PATH_PART = "        path_part = f\"/{path_info.lstrip('/')}\" if path_info else \"\"\n"
+_UNICODE_INIT = (
+    "        if length is not None:\n"
+    "            length_regex = f\"{{{int(length)}}}\"\n"
+    "        else:\n"
+    "            if maxlength is None:\n"
+    "                maxlength_value = \"\"\n"
+    "            else:\n"
+    "                maxlength_value = str(int(maxlength))\n"
+    "            length_regex = f\"{{{int(minlength)},{maxlength_value}}}\"\n"
+    "        self.regex = f\"[^/]{length_regex}\"\n"
+)
+_FIXED_CHECK = "        if self.fixed_digits and len(value) != self.fixed_digits:\n            raise ValidationError()"
+_GETATTR_LOOP = (
+    "        for own, theirs in ((\"strict_slashes\", \"%s\"), (\"merge_slashes\", \"%s\")):\n"
+    "            if getattr(self, own) is None:\n"
+    "                setattr(self, own, getattr(map, theirs))\n"
+)
+MUTANTS += [
+    {"name": "inherit:merge-flag-from-strict-setting-conditional-expression", "expect": "R3.9", "edits": [(R, _BIND_MERGE, "        self.merge_slashes = map.strict_slashes if self.merge_slashes is None else self.merge_slashes\n")]},
+    {"name": "inherit:both-flags-crossed", "expect": "R3.9", "edits": [(R, _BIND_FLAGS, "        if self.strict_slashes is None:\n            self.strict_slashes = map.merge_slashes\n        if self.merge_slashes is None:\n            self.merge_slashes = map.strict_slashes\n")]},
+    {"name": "inherit:getattr-loop-wrong-pair", "expect": "R3.9", "edits": [(R, _BIND_FLAGS, _GETATTR_LOOP % ("strict_slashes", "strict_slashes"))]},
+    {"name": "inherit:merge-flag-never-inherited", "expect": "R3.9", "edits": [(R, _BIND_MERGE, "")]},
+    {"name": "inherit:strict-flag-through-helper-defaults-to-true", "expect": "R3.9", "edits": [(R, _BIND_STRICT, "        if self.strict_slashes is None:\n            self.strict_slashes = getattr(map, \"strict\", True)\n")]},
+    {"name": "inherit:tuple-assignment-order-slip", "expect": "R3.10", "edits": [(R, _BIND_FLAGS, "        inherited_merge, inherited_strict = map.strict_slashes, map.merge_slashes\n        if self.strict_slashes is None:\n            self.strict_slashes = inherited_strict\n        if self.merge_slashes is None:\n            self.merge_slashes = inherited_merge\n")]},
+    {"name": "normalise:one-leading-slash-removed-by-slice", "expect": "R3.10", "edits": [(P, _PATH_PART, "        if path_info:\n            path_part = \"/\" + (path_info[1:] if path_info.startswith(\"/\") else path_info)\n        else:\n            path_part = \"\"\n")]},
+    {"name": "normalise:removeprefix", "expect": "R3.10", "edits": [(P, _PATH_PART, "        path_part = f\"/{path_info.removeprefix('/')}\" if path_info else \"\"\n")]},
+    {"name": "normalise:slash-only-added-when-missing", "expect": "R3.10", "edits": [(P, _PATH_PART, "        path_part = path_info if not path_info or path_info.startswith(\"/\") else f\"/{path_info}\"\n")]},
+    {"name": "normalise:strip-both-ends", "expect": "R3.10", "edits": [(P, _PATH_PART, "        path_part = f\"/{path_info.strip('/')}\" if path_info else \"\"\n")]},
+    {"name": "normalise:leading-run-halved-by-regex", "expect": "R3.10", "edits": [(P, _PATH_PART, "        path_part = re.sub(\"^//\", \"/\", path_info) if path_info else \"\"\n"), (P, "from __future__ import annotations\n", "from __future__ import annotations\n\nimport re\n")]},
+    {"name": "options:minlength-ignored-without-maxlength", "expect": "R3.10", "edits": [(C, _UNICODE_INIT, "        if length is not None:\n            length_regex = f\"{{{int(length)}}}\"\n        else:\n            length_regex = \"+\" if maxlength is None else f\"{{{int(minlength)},{int(maxlength)}}}\"\n        self.regex = f\"[^/]{length_regex}\"\n")]},
+    {"name": "options:maxlength-off-by-one", "expect": "R3.10", "edits": [(C, "                maxlength_value = str(int(maxlength))\n", "                maxlength_value = str(int(maxlength) + 1)\n")]},
+    {"name": "options:length-is-a-lower-bound", "expect": "R3.10", "edits": [(C, "            length_regex = f\"{{{int(length)}}}\"\n", "            length_regex = f\"{{{int(length)},}}\"\n")]},
+    {"name": "options:maxlength-dropped-when-minlength-given", "expect": "R3.10", "edits": [(C, "            if maxlength is None:\n                maxlength_value = \"\"\n", "            if maxlength is None or minlength > 1:\n                maxlength_value = \"\"\n")]},
+    {"name": "options:fixed-digits-only-a-minimum", "expect": "R3.10", "edits": [(C, _FIXED_CHECK, "        if self.fixed_digits and len(value) < self.fixed_digits:\n            raise ValidationError()")]},
+]
+TWINS += [
+    {"name": "inherit:conditional-expressions", "edits": [(R, _BIND_FLAGS, "        self.strict_slashes = map.strict_slashes if self.strict_slashes is None else self.strict_slashes\n        self.merge_slashes = self.merge_slashes if self.merge_slashes is not None else map.merge_slashes\n")]},
+    {"name": "inherit:getattr-loop-over-flag-names", "edits": [(R, _BIND_FLAGS, _GETATTR_LOOP % ("strict_slashes", "merge_slashes"))]},
+    {"name": "inherit:map-settings-through-locals-reordered", "edits": [(R, _BIND_FLAGS, "        settings = map\n        inherited_merge, inherited_strict = settings.merge_slashes, settings.strict_slashes\n        if self.merge_slashes is None:\n            self.merge_slashes = inherited_merge\n        if self.strict_slashes is None:\n            self.strict_slashes = inherited_strict\n")]},
+    {"name": "inherit:private-helper", "edits": [(R, _BIND_FLAGS, "        self._inherit_flags(map)\n"), (R, "    def get_converter(\n", "    def _inherit_flags(self, owner: Map) -> None:\n        if self.strict_slashes is None:\n            self.strict_slashes = owner.strict_slashes\n        if self.merge_slashes is None:\n            self.merge_slashes = owner.merge_slashes\n\n    def get_converter(\n")]},
+    {"name": "normalise:concatenation", "edits": [(P, _PATH_PART, "        if path_info:\n            path_part = \"/\" + path_info.lstrip(\"/\")\n        else:\n            path_part = \"\"\n")]},
+    {"name": "normalise:loop-drops-leading-slashes", "edits": [(P, _PATH_PART, "        path_part = path_info\n        while path_part.startswith(\"//\"):\n            path_part = path_part[1:]\n        if path_part and not path_part.startswith(\"/\"):\n            path_part = \"/\" + path_part\n")]},
+    {"name": "normalise:regex-collapses-leading-run", "edits": [(P, _PATH_PART, "        path_part = re.sub(\"^/*\", \"/\", path_info, count=1) if path_info else \"\"\n"), (P, "from __future__ import annotations\n", "from __future__ import annotations\n\nimport re\n")]},
+    {"name": "normalise:module-level-helper", "edits": [(P, _PATH_PART, "        path_part = _rooted(path_info)\n"), (P, "class MapAdapter:\n", "def _rooted(path_info: str) -> str:\n    if not path_info:\n        return \"\"\n    return \"/\" + path_info.lstrip(\"/\")\n\n\nclass MapAdapter:\n")]},
+    {"name": "options:quantifier-chosen-by-early-branches", "edits": [(C, _UNICODE_INIT, "        if length is not None:\n            length_regex = f\"{{{int(length)}}}\"\n        elif maxlength is not None:\n            length_regex = f\"{{{int(minlength)},{int(maxlength)}}}\"\n        else:\n            length_regex = f\"{{{int(minlength)},}}\"\n        self.regex = f\"[^/]{length_regex}\"\n")]},
+    {"name": "options:bounds-computed-first", "edits": [(C, _UNICODE_INIT, "        lower = int(minlength) if length is None else int(length)\n        upper = (\"\" if maxlength is None else str(int(maxlength))) if length is None else str(int(length))\n        self.regex = \"[^/]{\" + str(lower) + \",\" + upper + \"}\"\n")]},
+    {"name": "options:fixed-digits-check-rewritten", "edits": [(C, _FIXED_CHECK, "        wanted = self.fixed_digits\n        if wanted and not (len(value) == wanted):\n            raise ValidationError()")]},
+]
